@@ -536,6 +536,15 @@ def run(ctx: Any, prog: Program) -> None:
                 return ch + ' 0 0'
             if isinstance(t, ast.Constant):
                 return t.value
+            if isinstance(t, ast.Name) and t.id != vname:
+                # a module-level constant of instancing.py (`_NON_NAME_PREFIXES = '@!-.0123456789'`)
+                try:
+                    g_ = ins.global_assign(t.id)
+                except Exception:
+                    g_ = None
+                if isinstance(g_, (ast.Constant, ast.Tuple, ast.Call)) and not any(isinstance(a_, (ast.Assign, ast.AugAssign)) and any(isinstance(x_, ast.Name) and x_.id == t.id and isinstance(x_.ctx, ast.Store) for x_ in ast.walk(a_)) for a_ in ast.walk(co)):
+                    return _ev(g_, ch)
+                raise _Unknown(U(t))
             if isinstance(t, ast.Subscript) and isinstance(t.value, ast.Name) and t.value.id == vname:
                 if isinstance(t.slice, ast.Constant) and t.slice.value == 0:
                     return ch
@@ -561,6 +570,11 @@ def run(ctx: Any, prog: Program) -> None:
                 raise _Unknown(U(t))
             if isinstance(t, (ast.Tuple, ast.List, ast.Set)):
                 return tuple(_ev(e, ch) for e in t.elts)
+            if isinstance(t, ast.Call) and isinstance(t.func, ast.Name) and t.func.id in ('tuple', 'frozenset', 'set', 'list') and len(t.args) == 1 and not t.keywords:
+                inner_ = _ev(t.args[0], ch)
+                if isinstance(inner_, (str, tuple)):
+                    return tuple(inner_)
+                raise _Unknown(U(t))
             if isinstance(t, ast.Call) and isinstance(t.func, ast.Attribute) and not t.keywords:
                 recv = _ev(t.func.value, ch)
                 args = [_ev(a_, ch) for a_ in t.args]
